@@ -15,8 +15,6 @@ Notation pickupR := (pickup ROps).
 
 Definition radius_at (l : lensR) (k : Z) : option R :=
   match nth_error (surfs l) (Z.to_nat k) with Some s => Some (s_R s) | None => None end.
-Definition conic_at (l : lensR) (k : Z) : option R :=
-  match nth_error (surfs l) (Z.to_nat k) with Some s => s_k s | None => None end.
 
 Lemma pickup_formula old sc off : k_c01_pickup_apply ROps old sc off = sc * old + off.
 Proof. reflexivity. Qed.
@@ -26,7 +24,7 @@ Lemma radius_after_set (l : lensR) v k l' j :
   set_radius l v k = Some l' -> (0 <= j)%Z ->
   radius_at l' j = if (j =? k)%Z then Some v else radius_at l j.
 Proof.
-  intros E Hj. destruct (set_radius_exact_partial l v k l' E) as ((_ & HN) & _).
+  intros E Hj. destruct (set_radius_exact l v k l' E) as ((_ & HN) & _).
   unfold radius_at. rewrite HN. rewrite Z2Nat.id by exact Hj.
   unfold set_radius in E. destruct (nthS l k) as [s0|] eqn:ES; [|discriminate].
   destruct (nthS_some _ _ _ ES) as (Hk & Hs0).
@@ -50,22 +48,34 @@ Proof.
   unfold radius_at. rewrite Hs. split; reflexivity.
 Qed.
 
+(** conic constant as optiland reads it (a flat surface without the attribute reads 0) *)
+Definition cread (l : lensR) (k : Z) : option R :=
+  match nth_error (surfs l) (Z.to_nat k) with Some s => Some (conic_read s) | None => None end.
+
 Theorem pickup_conic_satisfied (l : lensR) (p : pickupR) l' :
   pk_attr p = AConic -> pk_src p <> pk_tgt p -> (0 <= pk_tgt p)%Z ->
   pickup_apply l p = Some l' ->
-  exists c, conic_at l (pk_src p) = Some c /\ conic_at l' (pk_src p) = Some c /\
-            conic_at l' (pk_tgt p) = Some (pk_scale p * c + pk_offset p).
+  exists c, cread l (pk_src p) = Some c /\ cread l' (pk_src p) = Some c /\
+            cread l' (pk_tgt p) = Some (pk_scale p * c + pk_offset p).
 Proof.
   intros Ha Hne Ht. unfold pickup_apply, pickup_get, pickup_set. rewrite Ha.
   destruct (nthS l (pk_src p)) as [s|] eqn:ES; [|discriminate].
-  destruct (nthS_some _ _ _ ES) as (Hs0 & Hs).
-  destruct (s_k s) as [c|] eqn:EK; [|discriminate]. intros E.
+  destruct (nthS_some _ _ _ ES) as (Hs0 & Hs). intros E.
   destruct (set_conic_exact _ _ _ _ E) as (_ & HN).
   unfold set_conic in E. destruct (nthS l (pk_tgt p)) as [t0|] eqn:ET; [|discriminate].
   destruct (nthS_some _ _ _ ET) as (_ & Ht0).
-  exists c. unfold conic_at. rewrite !HN, Hs, Ht0, !Z2Nat.id by assumption.
+  exists (conic_read s). unfold cread. rewrite !HN, Hs, Ht0, !Z2Nat.id by assumption.
   destruct (Z.eqb_spec (pk_src p) (pk_tgt p)); [contradiction|]. rewrite Z.eqb_refl.
-  cbn [with_geom s_k]. rewrite EK. repeat split; reflexivity.
+  repeat split; reflexivity.
+Qed.
+
+(** a conic pickup succeeds for every pair of existing surfaces, flat or not (the source of a flat
+    surface reads 0) *)
+Theorem conic_pickup_succeeds (l : lensR) (p : pickupR) s t :
+  pk_attr p = AConic -> nthS l (pk_src p) = Some s -> nthS l (pk_tgt p) = Some t ->
+  exists l', pickup_apply l p = Some l'.
+Proof.
+  intros Ha Hs Ht. unfold pickup_apply, pickup_get, pickup_set, set_conic. rewrite Ha, Hs, Ht. eexists; reflexivity.
 Qed.
 
 (** thickness pickup: the thickness behind the target becomes scale * (thickness behind the source) + offset,
